@@ -258,7 +258,34 @@ NsPlan(items, nspath, cl, acc) ==
                   [] OTHER -> Acc(<<>>, acc.id)
        IN NsPlan(Tail(items), nspath, cl, Cat(acc, r.steps, r.id))
 
-Plan(inst) == NsPlan(inst, <<>>, Classes(inst, <<>>), Acc(<<>>, 0)).steps
+\* ---- C03, executed: what each module object and each class object exposes (public attributes = not beginning with '_')
+RECURSIVE SetSeq(_)
+SetSeq(S) == IF S = {} THEN <<>> ELSE LET x == CHOOSE y \in S : TRUE IN <<x>> \o SetSeq(S \ {x})
+RECURSIVE ClassNames(_, _)
+ClassNames(cr, cl) ==
+  LET c == cr.c IN
+     {MethodPyName(c.methods[i].name, c.methods[i].cpp) : i \in {j \in 1..Len(c.methods) : c.methods[j].cpp \notin IPythonSpecial \cup {"serialize", "serializable"}}}
+  \cup {MethodPyName(c.statics[i].name, c.statics[i].cpp) : i \in {j \in 1..Len(c.statics) : c.statics[j].cpp \notin IPythonSpecial \cup {"serialize", "serializable"}}}
+  \cup {c.props[i].name : i \in 1..Len(c.props)} \cup {c.enums[i].name : i \in 1..Len(c.enums)}
+  \cup (IF c.hasbase /\ Find(cl, c.base) # 0 THEN ClassNames(cl[Find(cl, c.base)], cl) ELSE {})
+ModuleNames(items) ==
+  {items[i].name : i \in {j \in 1..Len(items) : items[j].k \in {"class", "fwdinst", "enum", "variable", "namespace"}}}
+  \cup {FuncPyName(items[i].name) : i \in {j \in 1..Len(items) : items[j].k = "function"}}
+\* a namespace may be opened several times: its submodule holds the union
+RECURSIVE NsItems(_, _)
+NsItems(items, name) == FlatSeq([i \in 1..Len(items) |-> IF items[i].k = "namespace" /\ items[i].name = name THEN items[i].items ELSE <<>>])
+RECURSIVE ExposeNs(_, _, _)
+ExposeNs(items, nspath, cl) ==
+  << CallStep("expose", nspath, "module", "", "", SetSeq(ModuleNames(items)), NoKw, <<>>, "any", "") >>
+  \o FlatSeq([i \in 1..Len(items) |->
+        IF items[i].k = "class" /\ Find(cl, items[i].cpp) # 0
+        THEN << CallStep("expose", nspath \o <<items[i].name>>, "class", "", "", SetSeq(ClassNames(cl[Find(cl, items[i].cpp)], cl)), NoKw, <<>>, "any", "") >>
+        ELSE <<>>])
+  \o FlatSeq([n \in 1..Len(SetSeq({items[i].name : i \in {j \in 1..Len(items) : items[j].k = "namespace"}})) |->
+        LET name == SetSeq({items[i].name : i \in {j \in 1..Len(items) : items[j].k = "namespace"}})[n]
+        IN ExposeNs(NsItems(items, name), nspath \o <<name>>, cl)])
+
+Plan(inst) == ExposeNs(inst, <<>>, Classes(inst, <<>>)) \o NsPlan(inst, <<>>, Classes(inst, <<>>), Acc(<<>>, 0)).steps
 
 \* facts about the module that decide whether a recorded MATLAB finding applies to its gateway as a whole
 RECURSIVE AllCallables(_)
